@@ -1,6 +1,7 @@
 //! vkit: verification kit for scylla-rust-driver (property-based testing and fuzzing).
 pub mod alloc;
 pub mod checks;
+pub mod e2e;
 pub mod gen_frames;
 pub mod gen_values;
 pub mod glue;
